@@ -1,6 +1,8 @@
 package vc
 
 import (
+	"fmt"
+	"strings"
 	"go/ast"
 	"go/token"
 	"go/types"
@@ -231,7 +233,7 @@ func (vc *VC) callEffects(ctx *pkgCtx, c *ast.CallExpr, e *Effects) {
 				// dynamic dispatch
 				key := FuncKey(o)
 				if ct, ok := vc.P.Specs.Contracts[key]; ok {
-					e.add(vc.contractEffects(ct, nil))
+					e.add(vc.contractEffects(ct, o))
 					return
 				}
 				it := sig.Recv().Type().Underlying().(*types.Interface)
@@ -251,14 +253,14 @@ func (vc *VC) callEffects(ctx *pkgCtx, c *ast.CallExpr, e *Effects) {
 		}
 		if fi, ok := vc.P.ByObj[o]; ok {
 			if ct, ok := vc.P.Specs.Contracts[fi.Key]; ok && ct.Trusted {
-				e.add(vc.contractEffects(ct, fi))
+				e.add(vc.contractEffects(ct, o))
 				return
 			}
 			e.add(vc.effectsOfFunc(fi))
 			return
 		}
 		if ct, ok := vc.P.Specs.Contracts[FuncKey(o)]; ok {
-			e.add(vc.contractEffects(ct, nil))
+			e.add(vc.contractEffects(ct, o))
 			return
 		}
 		e.add(vc.builtinModelEffects(o))
@@ -269,11 +271,90 @@ func (vc *VC) callEffects(ctx *pkgCtx, c *ast.CallExpr, e *Effects) {
 	}
 }
 
-// contractEffects: heaps named by a trusted contract's allocates clause.
-func (vc *VC) contractEffects(ct *Contract, fi *FuncInfo) *Effects {
+// contractEffects: heaps a contract says the function may change: its allocates clause plus the heaps of
+// every location in its modifies clause (typed statically from the signature).
+func (vc *VC) contractEffects(ct *Contract, fo *types.Func) *Effects {
 	e := newEffects()
 	for _, a := range ct.Allocates {
 		e.Heaps[a] = vc.heapSort[a]
+	}
+	if fo == nil {
+		return e
+	}
+	sig, _ := fo.Type().(*types.Signature)
+	if sig == nil {
+		return e
+	}
+	names := map[string]types.Type{}
+	if r := sig.Recv(); r != nil {
+		names[r.Name()] = r.Type()
+		names["recv"] = r.Type()
+	}
+	for i := 0; i < sig.Params().Len(); i++ {
+		p := sig.Params().At(i)
+		names[p.Name()] = p.Type()
+		names[fmt.Sprintf("arg%d", i+1)] = p.Type()
+	}
+	var typeOf func(x SExpr) types.Type
+	typeOf = func(x SExpr) types.Type {
+		switch v := x.(type) {
+		case SIdent:
+			return names[v.Name]
+		case SField:
+			t := typeOf(v.X)
+			if t == nil {
+				return nil
+			}
+			obj, _, _ := types.LookupFieldOrMethod(t, true, fo.Pkg(), v.Name)
+			if f, ok := obj.(*types.Var); ok {
+				return f.Type()
+			}
+			return nil
+		case SSliceE:
+			return typeOf(v.X)
+		case SIndex:
+			if t := typeOf(v.X); t != nil {
+				if sl, ok := t.Underlying().(*types.Slice); ok {
+					return sl.Elem()
+				}
+			}
+			return nil
+		case SCall:
+			if (v.Fun == "spare" || v.Fun == "hdr" || v.Fun == "old") && len(v.Args) == 1 {
+				return typeOf(v.Args[0])
+			}
+		}
+		return nil
+	}
+	for _, cl := range ct.Modifies {
+		x := cl.Expr
+		if c, ok := x.(SCall); ok && c.Fun == "pointee" {
+			for k, srt := range vc.heapSort {
+				if strings.HasPrefix(k, "P:") || strings.HasPrefix(k, "F:") {
+					e.Heaps[k] = srt
+				}
+			}
+			continue
+		}
+		if u, ok := x.(SUn); ok && u.Op == "*" {
+			if t := typeOf(u.X); t != nil {
+				if pt, ok := t.Underlying().(*types.Pointer); ok {
+					if structOf(pt.Elem()) != nil {
+						vc.addStructHeaps(e, pt.Elem())
+					} else {
+						e.Heaps["P:"+typeKey(pt.Elem())] = ArrSort(vc.sortOf(pt.Elem()))
+					}
+				}
+			}
+			continue
+		}
+		if t := typeOf(x); t != nil {
+			if sl, ok := t.Underlying().(*types.Slice); ok {
+				vc.addElemHeaps(e, sl.Elem())
+			}
+		} else {
+			e.Unknown = true
+		}
 	}
 	return e
 }
